@@ -9,7 +9,7 @@ import time
 
 from .extract import Inconclusive
 
-VERIF = os.environ.get("VERIF_ROOT", "/verif")
+VERIF = os.environ.get("VERIF_ROOT") or os.path.abspath(os.path.join(os.path.dirname(os.path.abspath(__file__)), "..", ".."))
 BUILD = os.path.join(VERIF, "build")
 KANI_MEM_KB = int(os.environ.get("VERIF_KANI_MEM_KB", str(24 * 1024 * 1024)))
 
@@ -86,7 +86,7 @@ def generate_crate(unit, files, harness_names):
 }}
 """
     write_if_changed(os.path.join(d, "src/bin/replay.rs"), replay)
-    deps = unit.get("deps", "")
+    deps = unit.get("deps", "").replace("/verif/", VERIF + "/")
     cargo = f"""[package]
 name = "{crate}"
 version = "0.1.0"
